@@ -531,7 +531,7 @@ fn read_quad(f: &mut BinReader, emitter: &impl Emitter) -> ReadResult<Option<Qua
     let anm_script = f.read_u16()?;
     match f.read_u16()? {
         0 => {},  // This word is zero in the file, and used to store an index in-game.
-        s => return Err(emitter.emit(warning!("unexpected data in quad index field: {s:#04x}"))),
+        s => emitter.emit(warning!("unexpected data in quad index field: {s:#04x}")).ignore(),
     };
 
     Ok(Some(Quad {
